@@ -19,7 +19,8 @@ EXPLANATION = (
     'blocks are statement-wise identical after renaming; rule50Margin computes (100 - clock) - pliesToMate for every encodable mate '
     '(exhaustive constant evaluation, shared with C04.1), so a mate that cannot be completed before the 50-move limit is never stored '
     'as a mate; the clock passed is the position\'s half-move clock; (2) Search::iterativeDeepening lowers minProbeDepth to 1 only on '
-    'the true branch of updateTB(); (3) TBProbe::extendPV extends a PV with tablebase moves only under the same distance inequality.')
+    'the true branch of updateTB(); (3) TBProbe::extendPV extends a PV with tablebase moves only under the same distance inequality.'
+    ' (4) the on-demand table is never consulted for positions with castling rights (shared with C12.5).')
 UNDECIDED = 'exactness of the reported distances (C12: value-level) and the choice of move among equally good tablebase moves.'
 ASSUMPTIONS = ['the generated table is complete when updateTB() returns true (C12.1, C12.2)']
 
